@@ -188,6 +188,8 @@ type Engine struct {
 	funcsDone []string
 	engineErrors []string
 	curAbstracted *bool
+	passConc      bool            // mode "both": second pass emits only lock-layer obligations
+	both          bool
 	immutableHeap map[string]bool // heap array names of fields declared immutable
 	axiomsDone    bool
 }
@@ -368,6 +370,22 @@ func (x *fnCtx) addVC(st *State, fnShort, kind string, ord int, sub string, goal
 		return
 	}
 	e := x.eng
+	if x.con != nil && x.con.OnlyLayers != nil && !x.con.OnlyLayers[kindLayer(kind)] {
+		return
+	}
+	if e.both {
+		isLockKind := false
+		switch kind {
+		case "guard", "lock", "unlock", "lockleak", "lockpost", "monitor":
+			isLockKind = true
+		}
+		if kind == "pre" && strings.Contains(sub, ".holds") {
+			isLockKind = true
+		}
+		if e.passConc != isLockKind {
+			return
+		}
+	}
 	name := fmt.Sprintf("%s/%s/%s#%d", e.prop, fnShort, kind, ord)
 	if sub != "" {
 		name += "." + sub
@@ -601,4 +619,18 @@ func (x *fnCtx) havocAllHeap(st *State, why string) {
 		st.assume(Forall([]*Term{bk}, Implies(Select(alloc, bk), Eq(Select(after, bk), Select(before, bk))), Select(after, bk)))
 	}
 	x.writes["*"] = true
+}
+
+func kindLayer(kind string) string {
+	switch kind {
+	case "index", "slice", "nil", "div", "makeslice", "typeassert", "nilmap", "panic", "call":
+		return "safety"
+	case "overflow":
+		return "overflow"
+	case "trace_ensures", "trace_panics":
+		return "trace"
+	case "guard", "lock", "unlock", "lockleak", "lockpost", "monitor":
+		return "lock"
+	}
+	return "contract"
 }
